@@ -208,7 +208,7 @@ def check(first, last):
             open(path, "wb").write(raw[:sv["offset"]] + sv["new"].encode()
                                    + raw[sv["offset"] + sv["length"]:])
             verdict = {"caught_by": None, "label": None, "tried": [], "what": sv["what"]}
-            for pid in FILES[sv["file"]]:
+            for pid in FILES[sv["file"]][:2]:
                 env = dict(os.environ, VERIF_REPO_SRC=os.path.join(scratch, "src"),
                            VERIF_SCRATCH_OUT=os.path.join(scratch, "out"))
                 try:
